@@ -60,12 +60,22 @@ def main():
             chan += 1
             sonar_an[b] = (sa, AnalogInputSim(sa.analog))
     out = []
+    nconv = 0
     for c in spec["cases"]:
         k = c["k"]
         r = None
         err = None
         try:
             if k == "convert":
+                nconv += 1
+                if nconv % 5 == 0:
+                    # a conversion that fails part-way (the caller survives it) must leave nothing behind
+                    for bad in (None, 10 ** 400, "x"):
+                        for tgt in (c["b"], c["c"], "inch"):
+                            try:
+                                units.convert(U[c["a"]], U[tgt], bad)
+                            except Exception:  # noqa
+                                pass
                 v = c["v"][0] / c["v"][1]
                 r = units.convert(U[c["a"]], U[c["b"]], v)
                 # the laws themselves, on the real code
@@ -79,7 +89,11 @@ def main():
                     s.counter = StubCounter()
                     sonar_pw[c["b"]] = s
                 s = sonar_pw[c["b"]]
-                s.counter.period = c["us"][0] / c["us"][1] / 1e6
+                tgt = c["us"][0] / c["us"][1] / 1e6
+                for j in range(5, 0, -1):      # the reading creeps up on the value (a reading is a function of the input alone)
+                    s.counter.period = tgt + j * 2e-8
+                    s.get()
+                s.counter.period = tgt
                 r = s.get()
             elif k == "sonar_an":
                 if c["b"] not in sonar_an:
@@ -87,7 +101,11 @@ def main():
                     chan += 1
                     sonar_an[c["b"]] = (s, AnalogInputSim(s.analog))
                 s, sim = sonar_an[c["b"]]
-                sim.setVoltage(c["mv"][0] / c["mv"][1] / 1000.0)
+                tgt = c["mv"][0] / c["mv"][1] / 1000.0
+                for j in range(5, 0, -1):      # a slowly drifting input, far less than one ADC step per sample
+                    sim.setVoltage(tgt + j * 0.0003)
+                    s.get()
+                sim.setVoltage(tgt)
                 r = s.get()
             elif k in ("pressure", "calib", "recalib"):
                 vcc = c["vcc"][0] / c["vcc"][1]
@@ -97,7 +115,11 @@ def main():
                     press[vcc] = (s, AnalogInputSim(s.sensor))
                 s, sim = press[vcc]
                 if k == "pressure":
-                    sim.setVoltage(c["v"][0] / c["v"][1])
+                    tgt = c["v"][0] / c["v"][1]
+                    for j in range(4, 0, -1):
+                        sim.setVoltage(tgt + j * 0.0002)
+                        s.pressure
+                    sim.setVoltage(tgt)
                     r = s.pressure
                 else:
                     if k == "recalib":
